@@ -84,6 +84,8 @@ class Gen:
     # ------------------------------------------------------------ expressions by type
     def lit(self, ty):
         r = self.rng
+        if ty == "null":
+            return ("if", ("bool", False), [("expr", ("int", 1))], None)
         if ty == "int":
             return ("int", r.choice(SMALL_INTS) if r.random() < 0.9 else r.choice(BIG_INTS))
         if ty == "bool":
@@ -201,6 +203,8 @@ class Gen:
             return self.lit(ty)
         if ty[0] == "fn":
             return self.lit(ty)
+        if ty == "null":
+            return self.lit(ty)
         raise ValueError(ty)
 
     def value_block(self, ty, d):
@@ -261,8 +265,19 @@ class Gen:
                 body.append(("expr", rec))
         else:
             body += self.stmts(self.rng.randint(0, 3), d)
-            if self.rng.random() < 0.5:
+            if fty[2] == "null":
+                # a procedure: the body ends in a statement that is not an expression (value-less return)
+                self.note("procedure")
+                tail = self.stmts(1, 0)
+                if not tail or tail[-1][0] == "expr":
+                    tail = [("let", env.fresh(), self.expr(self.rand_type(d=0), 1))]
+                body += tail
+            elif self.rng.random() < 0.5:
                 body.append(("ret", self.expr(fty[2], d)))
+                if self.rng.random() < 0.25:
+                    # unreachable statements after antwoord are still compiled (and must be well scoped)
+                    self.note("dead-code-after-return")
+                    body += self.stmts(self.rng.randint(1, 2), 1)
             else:
                 body.append(("expr", self.expr(fty[2], d)))
         env.depth_fn -= 1
@@ -351,14 +366,33 @@ class Gen:
             self.note("break" if r.random() < 0.5 else "continue")
             # guarded, so that loops still make progress (the counter is incremented first thing)
             return ("expr", ("if", self.expr("bool", d - 1), [r.choice([("break",), ("continue",)])], None))
-        if c < 0.9 and in_fn and env.fn_ret[-1] is not None:
+        if c < 0.9 and in_fn and env.fn_ret[-1] not in (None, "null"):
             self.note("early-return")
-            return ("expr", ("if", self.expr("bool", d - 1), [("ret", self.expr(env.fn_ret[-1], d - 1))], None))
+            k = r.random()
+            rt = env.fn_ret[-1]
+            if k < 0.5:
+                return ("expr", ("if", self.expr("bool", d - 1), [("ret", self.expr(rt, d - 1))], None))
+            if k < 0.75:
+                # the returning branch last: a value branch and a returning branch side by side
+                return ("expr", ("if", self.expr("bool", d - 1), [("expr", self.expr(rt, d - 1))], [("ret", self.expr(rt, d - 1))]))
+            if k < 0.9:
+                return ("expr", ("if", self.expr("bool", d - 1), [("ret", self.expr(rt, d - 1))], [("expr", self.expr(rt, d - 1))]))
+            return ("expr", ("if", self.expr("bool", d - 1), [("ret", self.expr(rt, d - 1))], [("ret", self.expr(rt, d - 1))]))
         if c < 0.96 and self.funcs and d > 0 and env.depth_fn < 2:
-            fty = ("fn", [r.choice(["int", "int", "bool", "str", ("arr", "int")]) for _ in range(r.randint(0, 3))], r.choice(["int", "str", "bool", ("arr", "int")]))
+            fty = ("fn", [r.choice(["int", "int", "bool", "str", ("arr", "int")]) for _ in range(r.randint(0, 3))], r.choice(["int", "str", "bool", ("arr", "int"), "null"]))
             name = env.fresh("f")
             self.note("named-fn")
-            return ("expr", self.fn_literal(fty, name))
+            f = ("expr", self.fn_literal(fty, name))
+            if r.random() < 0.6:
+                # call it right away: as a statement, or bound by a declaration (the callee's value may be null)
+                call = ("call", ("id", name), [self.expr(a, 1) for a in fty[1]])
+                self.note("call")
+                if r.random() < 0.5:
+                    v = env.fresh()
+                    env.declare(v, "null" if fty[2] == "null" else fty[2])
+                    return ("block2", f, ("let", v, call))
+                return ("block2", f, ("expr", call))
+            return f
         return ("expr", self.expr(self.rand_type(d=d), d))
 
     def loop(self, d):
@@ -394,10 +428,22 @@ class Gen:
                 out.append(s)
         return out
 
-    def program(self, n=None):
+    def program(self, n=None, end_with_statement=0.0):
         n = n if n is not None else self.rng.randint(2, 7)
         b = self.stmts(n, self.max_depth)
         b.append(("expr", self.expr(self.rand_type(), 2)))
+        self.ends_with_value = True
+        if self.rng.random() < end_with_statement:
+            # the program's value is then unspecified (DESIGN.md 4.3 item 1); output, errors and memory safety are not
+            self.note("ends-with-statement")
+            fns = [n for n, t in self.env.visible().items() if isinstance(t, tuple) and t[0] == "fn"]
+            if fns and self.rng.random() < 0.7:
+                f = self.rng.choice(fns)
+                fty = self.env.visible()[f]
+                b.append(("let", self.env.fresh(), ("call", ("id", f), [self.expr(a, 1) for a in fty[1]])))
+            else:
+                b.append(("let", self.env.fresh(), self.expr(self.rand_type(), 1)))
+            self.ends_with_value = False
         return b
 
 
@@ -414,8 +460,10 @@ def mentions(t, name):
 def gen_program(rng, **kw):
     if "p_err" not in kw:
         kw["p_err"] = 0.015 if rng.random() < 0.3 else 0.0
+    ews = kw.pop("end_with_statement", 0.0)
     g = Gen(rng, **kw)
-    p = g.program()
+    p = g.program(end_with_statement=ews)
+    g.stats["__ends_with_value"] = 1 if g.ends_with_value else 0
     return p, g.stats
 
 
